@@ -27,6 +27,8 @@ The model mirrors what the code *does*:
     they are at most one second apart, returns `start + random()`; the result is clamped from
     below to the start (919a3ea, D38) and from above to the end (a6412d5, D50).
 -/
+import SnowModel.Core.L2
+
 namespace SnowModel.Bounded
 
 /-! ### `random_number(min, max, step)` = `random.randrange(min, max + 1, step)` -/
@@ -66,6 +68,49 @@ def randomNumber (min max step : Int) (k : Nat) : RROut :=
 /-- lattice size of `random_number` -/
 def rnCount (min max step : Int) : Int :=
   rrCount (rnStart min max step) (rnStop min max step) (rnStep min max step)
+
+/-! ### The recipe-level path in the default (v2) dialect
+
+`SimpleValue.render` passes every string it produces — the stringified result of a `${{…}}`
+formula, hence also every formula-valued *argument* — through `look_for_number`
+(`L2.lookForNumber`, pinned by C03's `TemplateUtils` group).  Literal YAML ints and the v3 dialect
+(native types) bypass it. -/
+
+/-- What becomes of an integer that travels through a v2 formula: `str(x)`, then `look_for_number`. -/
+def renderV2 (x : Int) : Except L2.Err L2.Val := L2.lookForNumber (L2.intToStr x)
+
+/-- The integer a rendered value denotes: an int, or the decimal text of one. -/
+def valAsInt : L2.Val → Option Int
+  | .int i => some i
+  | .str s => s.toInt?
+  | _ => none
+
+/-- How the three arguments reach `random_number`. -/
+inductive ArgMode where
+  | native       -- literal YAML ints, keyword arguments inside a formula, or any v3 recipe
+  | formulaV2    -- `min: ${{…}}` in the default dialect: rendered before the call
+  deriving Repr, DecidableEq
+
+/-- The Python object the function sees for an argument: an `int`, or (`none`) a `str` —
+    `look_for_number` leaves `"0"` and every negative number a string. -/
+def argSeen (mode : ArgMode) (x : Int) : Option Int :=
+  match mode with
+  | .native => some x
+  | .formulaV2 =>
+    match renderV2 x with
+    | .ok (.int i) => some i
+    | _ => none
+
+inductive RNOut where
+  | typeError          -- a `str` argument: `max + 1` / `randrange` raises TypeError
+  | out (o : RROut)
+  deriving Repr, DecidableEq
+
+/-- `random_number` as a recipe calls it. -/
+def randomNumberVia (mode : ArgMode) (min max step : Int) (k : Nat) : RNOut :=
+  match argSeen mode min, argSeen mode max, argSeen mode step with
+  | some a, some b, some c => .out (randomNumber a b c k)
+  | _, _, _ => .typeError
 
 /-! ### `random_choice` -/
 
